@@ -195,10 +195,11 @@ impl DenominationStrategy for CanonicalOneTwoFive {
                 break 0;
             }
             let fits = prep_tx_count(&typed(&notes)).filter(|&n| {
-                notes
-                    .iter()
-                    .sum::<u64>()
-                    .checked_add(n as u64 * prep_tx_fee_zatoshi)
+                // The count comes from the caller's oracle, so its fee total is computed with
+                // checked arithmetic: a count too large to price is simply one that does not fit.
+                (n as u64)
+                    .checked_mul(prep_tx_fee_zatoshi)
+                    .and_then(|fees| notes.iter().sum::<u64>().checked_add(fees))
                     .is_some_and(|c| c <= total_input_zatoshi)
             });
             match fits {
